@@ -209,6 +209,55 @@ func Scenarios() []Scenario {
 		return ""
 	}})
 
+	// S4c: the registry of temporary files to delete: one goroutine cleans up (the deferred cleanup of a
+	// finished run) while two others register new files; whatever the interleaving, a file is deleted by the
+	// first cleanup that starts after its registration - here at the latest by the one in the final step
+	out = append(out, Scenario{Name: "S4c/tempfile-registry", Setup: func() ([]func() string, func() string) {
+		dir := filepath.Join(drive.Sandbox(), "tmp", "s4c")
+		driver.VerifCleanupTempFiles()
+		os.RemoveAll(dir)
+		os.MkdirAll(dir, 0755)
+		reg := func(name string) func() string {
+			return func() string {
+				p := filepath.Join(dir, name)
+				if err := os.WriteFile(p, []byte(name), 0644); err != nil {
+					return "err " + err.Error()
+				}
+				driver.VerifDeferDeleteTempFile(p)
+				return "registered"
+			}
+		}
+		reg("early1")()
+		reg("early2")()
+		cleanup := func() string {
+			if err := driver.VerifCleanupTempFiles(); err != nil {
+				return "err " + err.Error()
+			}
+			return "cleaned"
+		}
+		final := func() string {
+			r := cleanup()
+			ents, _ := os.ReadDir(dir)
+			var s []string
+			for _, e := range ents {
+				s = append(s, e.Name())
+			}
+			sort.Strings(s)
+			return r + " left:" + strings.Join(s, ",")
+		}
+		return []func() string{cleanup, reg("late1"), reg("late2")}, final
+	}, Accept: func(res []string, final string) string {
+		for _, r := range res {
+			if strings.HasPrefix(r, "err") {
+				return "an operation failed: " + r
+			}
+		}
+		if final != "cleaned left:" {
+			return "after a cleanup that started when all registrations were done: " + final + " (a registered file was forgotten, or deleted twice)"
+		}
+		return ""
+	}})
+
 	// S4b: a temporary file is created while somebody who does not share pprof's locks (another pprof
 	// process saving into the same directory) takes names of the same series with exclusive creates:
 	// nobody ends up owning a name the other one owns, and no content is overwritten
